@@ -1,11 +1,11 @@
 #!/bin/bash
-# Development helper: run one property against a CLEAN snapshot of /repo (/tmp/cleanrepo) from a copy of the
+# Development helper: run one property against a CLEAN snapshot of /repo (/tmp/cleanrepo2) from a copy of the
 # harness sources, so that work can continue while /repo itself carries a seeded change. Never used by MANIFEST.
 set -e
 prop=$1; tier=${2:-quick}; prof=${3:-checked}
 mkdir -p /tmp/devharness
 rsync -a --delete --exclude target /verif/harness/ /tmp/devharness/
-sed -i 's#path = "/repo"#path = "/tmp/cleanrepo"#' /tmp/devharness/Cargo.toml
+sed -i 's#path = "/repo"#path = "/tmp/cleanrepo2"#' /tmp/devharness/Cargo.toml
 cd /tmp/devharness
 CARGO_NET_OFFLINE=true cargo build --offline --profile $prof 2>&1 | grep -E "^error|warning: unused" -A12 | head -50
 ./target/$prof/fcmc run $prop --tier $tier --out /tmp/dev-$prop.json --replay-dir /tmp/devreplays || true
